@@ -320,6 +320,13 @@ impl Ctl {
     pub fn set_eintr(&self, permille: u32) {
         self.tx.lock().unwrap().eintr_permille = permille;
     }
+    /// Insert bytes into this end's receive direction as if the peer had written them.
+    pub fn inject_rx(&self, bytes: &[u8]) {
+        let mut d = self.rx.lock().unwrap();
+        d.buf.extend(bytes);
+        d.written += bytes.len() as u64;
+        d.wake_reader();
+    }
     /// Start recording everything this end writes.
     pub fn tap_tx(&self) {
         self.tx.lock().unwrap().tap = Some(Vec::new());
